@@ -233,6 +233,49 @@ def run_fault(op, g, r):
     return common.explore(fn, 'fault(%s,g=%s,r=%s)' % (op, g, r))
 
 
+def run_combine():
+    """csscombine with every combination of minify / resolveVariables arguments and of the caller's
+    resolveVariables / indent preferences (solver variables): V restored, battery unchanged"""
+    cssutils = common.setup_lifted()
+    from sx.core import fresh_bool
+    import cssutils.script
+    cssutils.log.raiseExceptions = True
+
+    def fn():
+        minify = fresh_bool('minify')
+        resolve = fresh_bool('resolveVariables')
+        pref_resolve = fresh_bool('pref_resolveVariables')
+        pref_comments = fresh_bool('pref_keepComments')
+        inputs = {'kind': 'combine', 'minify': minify, 'resolveVariables': resolve,
+                  'pref_resolveVariables': pref_resolve, 'pref_keepComments': pref_comments}
+        common.set_inputs(inputs)
+        info = {'in': inputs, 'tags': ['combine']}
+        cssutils.ser.prefs.useDefaults()
+        cssutils.ser.prefs.resolveVariables = bool(pref_resolve)
+        cssutils.ser.prefs.keepComments = bool(pref_comments)
+        v0 = state_vector(cssutils)
+        probe = cssutils.parseString('@variables{c:red} /*k*/ a{color:var(c)}', validate=False)
+        before = probe.cssText
+        try:
+            cssutils.script.csscombine(cssText='@variables{c:red} a{color:var(c)}', href='http://example.invalid/p.css',
+                                       minify=bool(minify), resolveVariables=bool(resolve))
+            outcome = 'returned'
+        except Exception as e:
+            outcome = 'raised:' + type(e).__name__
+        v1 = state_vector(cssutils)
+        after = probe.cssText
+        cssutils.ser.prefs.useDefaults()
+        if v0 != v1:
+            info['note'] = {'problem': 'state changed', 'changed': [a[0] for a, b in zip(v0, v1) if a != b], 'outcome': outcome}
+            return False, info
+        if before != after:
+            info['note'] = {'problem': 'later serialisation differs', 'outcome': outcome}
+            return False, info
+        return True, info
+
+    return common.explore(fn, 'combine')
+
+
 def run_reuse(ctx_index, n, r):
     cssutils = common.setup_lifted()
     from sx.symstr import fresh_str, reduced_alphabet
@@ -290,6 +333,7 @@ def jobs(tier):
                 out.append(('harness.c12', 'run_bytes', dict(n=n, encoding=enc, g=g, r=r)))
         for op in FAULT_OPS:
             out.append(('harness.c12', 'run_fault', dict(op=op, g=g, r=r)))
+    out.append(('harness.c12', 'run_combine', {}))
     out.sort(key=lambda j: -j[2].get('n', 0))
     return out
 
@@ -368,7 +412,7 @@ def main(tier):
                        'the probe battery stands for "any later call"']
     rep.stubs = ['logging: StubLog', 'fetcher: in-memory', 'codecs: sx/pycodecs.py']
     rep.outside = ['state outside the process', 'first calls longer than the infix bound']
-    rep.witness_required = ['returned', 'raised', 'reuse']
+    rep.witness_required = ['returned', 'raised', 'reuse', 'combine']
     return rep.finish()
 
 
@@ -385,6 +429,29 @@ def replay(case):
     baseline = battery(cssutils)
     g, r = inp.get('g', True), inp.get('r', False)
     kind = inp['kind']
+    if kind == 'combine':
+        cssutils.ser.prefs.useDefaults()
+        cssutils.ser.prefs.resolveVariables = inp['pref_resolveVariables']
+        cssutils.ser.prefs.keepComments = inp['pref_keepComments']
+        v0 = state_vector(cssutils)
+        probe = cssutils.parseString('@variables{c:red} /*k*/ a{color:var(c)}', validate=False)
+        before = probe.cssText
+        try:
+            cssutils.script.csscombine(cssText='@variables{c:red} a{color:var(c)}', href='http://example.invalid/p.css',
+                                       minify=inp['minify'], resolveVariables=inp['resolveVariables'])
+        except Exception:
+            pass
+        v1 = state_vector(cssutils)
+        after = probe.cssText
+        cssutils.ser.prefs.useDefaults()
+        changed = [a[0] for a, b in zip(v0, v1) if a != b]
+        if not changed and before == after:
+            return {'reproduced': False, 'detail': 'csscombine left preferences and later output alone'}
+        return {'reproduced': True,
+                'detail': 'csscombine(minify=%s, resolveVariables=%s) with prefs.resolveVariables=%s: state changed %s; the same '
+                          'sheet serialises as %r before and %r after'
+                          % (inp['minify'], inp['resolveVariables'], inp['pref_resolveVariables'], changed, before, after),
+                'fields': {'symptom': 'combine-state', 'changed': '+'.join(changed)}}
     if kind == 'reuse':
         cssutils.log.raiseExceptions = True
         parser = cssutils.CSSParser(raiseExceptions=r, validate=False, fetcher=lambda url: None)
